@@ -4,6 +4,7 @@ import DracoModel.SeqEncoder
 import DracoProofs.SeqGeometry
 import DracoProofs.SeqRows
 import DracoProofs.SpecCheck
+import DracoProofs.OctaFloat
 /-
   C01 — encode/decode round trip, composed and machine checked for the SEQUENTIAL methods
   (`POINT_CLOUD_SEQUENTIAL_ENCODING`, `MESH_SEQUENTIAL_ENCODING`), against the decoder model
@@ -623,5 +624,56 @@ example : ∃ r rs st st',
     Spec.check .sequential (quantReq samplePC sampleOpts) samplePC r.geometry rs.geometry = "ok" :=
   seq_roundtrip_ok sampleChoices samplePC none sampleOpts sampleStream samplePC_ok (fun m h => by cases h)
     (by decide) (fun _ => rfl) samplePC_encodes' [1]
+
+/-! ## 8. the hypothesis on normals
+
+  The round-trip theorems assume `octaEntryOK` for every normal (the octahedral coordinates computed by the
+  float code are a canonical grid point).  `octaEntryOK_of_rowOK` derives it from `octaRowOK` (the first
+  rounded coordinate is at most `center_value_` in magnitude), and `octa_round_in_range` proves `octaRowOK`
+  for EVERY evaluation of the `double` operations that obeys the standard rounding model — the executable
+  model being the `Float` instance of the same generic function (`octa_float_is_generic`).  What remains
+  unproved is only that Lean's opaque `Float` (= the hardware's binary64) obeys that model. -/
+
+/-- the executable float code of the model is the `Float` instance of the generic function -/
+theorem octa_float_is_generic (t : OctaT) (v : Float32 × Float32 × Float32) :
+    Octa.floatVecRound t v = Octa.floatVecRoundG t.center v.1.toFloat v.2.1.toFloat v.2.2.toFloat :=
+  Octa.floatVecRound_eq_generic t v
+
+/-- under the standard rounding model (unit roundoff `u ≤ 2^-40`, binary64: `2^-53`) the first rounded
+    coordinate of `FloatVectorToQuantizedOctahedralCoords` has magnitude at most `center_value_`, for
+    every finite input and every `center_value_ < 2^29` (2..30 quantization bits) -/
+theorem octa_round_in_range (ops : DoubleOps ℚ) (u : ℚ) (hu0 : 0 ≤ u) (hu : u ≤ 1 / 2 ^ 40)
+    (hm : Octa.DoubleModel ops u) (c : Int) (hc1 : 1 ≤ c) (hc : c < 2 ^ 29) (x y z : ℚ) :
+    iabs (@Octa.floatVecRoundG ℚ ops c x y z).1 ≤ c :=
+  Octa.octa_round_in_range ops u hu0 hu hm c hc1 hc x y z
+
+/-- exact rational arithmetic: a model with `u = 0` -/
+@[reducible] def exactDoubleOps : DoubleOps ℚ where
+  abs a := |a|
+  add a b := a + b
+  mul a b := a * b
+  div a b := a / b
+  ofInt k := (k : ℚ)
+  floorToInt a := ⌊a⌋
+  lt a b := decide (a < b)
+  zero := 0
+  one := 1
+  half := 1 / 2
+
+theorem exactDoubleOps_model : Octa.DoubleModel exactDoubleOps 0 :=
+  ⟨fun _ => rfl, fun a b => ⟨0, by simp, by show a + b = (a + b) * (1 + 0); ring⟩,
+   fun a b => ⟨0, by simp, by show a * b = (a * b) * (1 + 0); ring⟩,
+   fun a b _ => ⟨0, by simp, by show a / b = (a / b) * (1 + 0); ring⟩,
+   fun _ => rfl, fun _ => rfl, fun _ _ => rfl, rfl, rfl, rfl⟩
+
+/-- non-vacuity: center 7 (4 bits), the vector (1/3, -2/3, 2/3) -/
+example : iabs (@Octa.floatVecRoundG ℚ exactDoubleOps 7 (1 / 3) (-2 / 3) (2 / 3)).1 ≤ 7 :=
+  octa_round_in_range exactDoubleOps 0 (le_refl _) (by norm_num) exactDoubleOps_model 7 (by decide)
+    (by decide) _ _ _
+
+/-- the float oracle hypothesis implies the hypothesis of the round-trip theorems -/
+theorem octaEntryOK_of_octaRowOK (q : Nat) (t : OctaT) (ht : Octa.init q = some t) (row : Bytes)
+    (h : octaRowOK t row = true) : octaEntryOK t (octaRow t row) = true :=
+  octaEntryOK_of_rowOK t (Octa.init_wf ht).1 row h
 
 end Draco.C01
